@@ -69,6 +69,12 @@ def gen_case(rng, outer_abs):
         text = b"diff -ruN " + full + b" " + full + b"\nOnly in " + full + b": x\n--- " + pre + b"nosuch.c\n+++ " + pre + b"nosuch.c\n@@ -1 +1 @@\n-secret\n+pwned\n"
     else:
         text = b"--- " + q(full) + b"\n+++ " + q(inner) + b"\n@@ -1 +1 @@\n-secret\n+pwned\n"
+    if rng.random() < 0.4:
+        # the escaping file patch is not the last one of its patch file: another 'diff --git' block follows (a file patch
+        # without hunks ends where the next block begins - every place that produces a file patch must check its names;
+        # seeded C19-h)
+        text += rng.choice([b"diff --git " + pre + b"d/keep " + pre + b"d/keep\nold mode 100644\nnew mode 100755\n",
+                            b"diff --git " + pre + b"d/keep " + pre + b"d/keep\n--- " + pre + b"d/keep\n+++ " + pre + b"d/keep\n@@ -1 +1 @@\n-k\n+K\n"])
     series = b"ok.patch\nevil.patch" + (b" -p%d" % strip if strip != 1 or rng.random() < 0.5 else b"") + b"\n"
     okp = b"--- a/inside.txt\n+++ b/inside.txt\n@@ -1 +1 @@\n-secret\n+changed\n" if rng.random() < 0.6 else b"--- /dev/null\n+++ b/other\n@@ -0,0 +1 @@\n+x\n"
     if b"inside.txt" in text and b"changed" in okp:
@@ -167,6 +173,8 @@ def parser_cases(rng, n):
             text = b"diff --git " + q(full) + b" " + q(full) + b"\nnew mode 100755\nold mode 100644\n"
         else:
             text = b"Index: " + full + b"\n--- " + full + b"\n+++ " + full + b"\n@@ -1 +1 @@\n-a\n+b\n"
+        if rng.random() < 0.4:
+            text += b"diff --git " + pre + b"ok " + pre + b"ok\nold mode 100644\nnew mode 100755\n"
         cases.append({"strip": strip, "data": text})
     return cases
 
